@@ -232,6 +232,64 @@ def cli_stage(ctx, chosen):
         raise MachineryError('vacuity: CLI exit statuses all alike')
 
 
+def _ff_job(args):
+    items, seed, workdir = args
+    import logging
+    logging.disable(logging.CRITICAL)
+    from vf import images
+    from oslo_utils.imageutils import format_inspector as fi
+    out = []
+    for idx, rec in items:
+        rnd = random.Random(seed * 1000003 + idx)
+        fmt, B = ri.gamma(rec['L'])
+        data, bounds = images.build(fmt, B, rnd)
+        path = os.path.join(workdir, 'ff_%d.bin' % idx)
+        with open(path, 'wb') as fh:
+            fh.write(data)
+        try:
+            insp = fi.ALL_FORMATS[fmt].from_file(path)
+            got = ('inspector', insp.actual_size, str(insp))
+        except fi.ImageFormatError:
+            got = ('ImageFormatError', None, None)
+        except Exception as e:
+            got = ('EXC:' + type(e).__name__, None, None)
+        os.unlink(path)
+        out.append((idx, got, len(data)))
+    return out
+
+
+def from_file_stage(ctx, chosen):
+    """FileInspector.from_file reads the minimum and is fail-closed (spec growth beyond C02's text)."""
+    rnd = random.Random(ctx.seed + 9)
+    by = {}
+    for it in chosen:
+        by.setdefault((it[1]['L']['fmt'], it[1]['fromfile'], it[1]['clean']), []).append(it)
+    sel = []
+    for k, lst in sorted(by.items()):
+        rnd.shuffle(lst)
+        sel += lst[:(25 if ctx.quick else 200)]
+    jobs = [(sel[i:i + 12], ctx.seed, ctx.work) for i in range(0, len(sel), 12)]
+    byidx = dict(sel)
+    n = 0
+    for out in multiprocessing.Pool(16).imap_unordered(_ff_job, jobs):
+        for idx, got, total in out:
+            rec = byidx[idx]
+            n += 1
+            want = rec['fromfile']
+            bad = got[0] != want
+            if not bad and want == 'inspector' and rec['clean']:
+                up = rec['readupto']
+                exp = total if up == -1 else min(total, -(-up // 512) * 512)
+                bad = got[1] != exp
+            if bad:
+                ctx.violation({'kind': 'from_file', 'fmt': rec['L']['fmt'], 'want': want, 'got': got[0]},
+                              {'layout': rec['L'], 'observed': got, 'expected': want, 'read_up_to': rec['readupto'], 'size': total},
+                              '%s.from_file on %s: %s (actual_size %s), specification %s (complete at %s of %d bytes)' % (
+                                  rec['L']['fmt'], rec['L'], got[0], got[1], want, rec['readupto'], total))
+    ctx.cov['evaluations'] += n
+    ctx.stage('from_file', cases=n)
+
+
 def injection_stage(ctx):
     """An error inside a shipped check counts as a failure of that check."""
     from vf import images, insp
@@ -277,6 +335,7 @@ def run(ctx):
     chosen = traits_stage(ctx, records)
     ctx.sample({'trait_case': {'L': chosen[0][1]['L'], 'ref': chosen[0][1]['ref'], 'unsafe': chosen[0][1]['unsafe']}})
     cli_stage(ctx, chosen)
+    from_file_stage(ctx, chosen)
     injection_stage(ctx)
     # binding self-test: an inspector whose gate is removed must be exposed by the aggregator replay
     from oslo_utils.imageutils import format_inspector as fi
